@@ -91,6 +91,9 @@ var c05Rangeables = []c05Rangeable{
 	{"rRi0", func() interface{} { return newIdxRanger(true) }, nil},
 	{"rRn", func() interface{} { return newIdxRanger(false, "u", "w") }, nil},
 	{"rRn0", func() interface{} { return newIdxRanger(false) }, nil},
+	{"rFeed", func() interface{} { return newChanFeed("hb", "a", "hb", "b", "hb") }, nil}, // custom Rangers of a natively rangeable kind
+	{"rFeed0", func() interface{} { return newChanFeed("hb") }, nil},
+	{"rCur", func() interface{} { return newSliceCursor(1, 2, 3) }, nil},
 	{"rNil", func() interface{} { return nil }, nil},
 	{"rInt", func() interface{} { return 5 }, nil},
 	{"rNilSl", func() interface{} { return []int(nil) }, nil},
